@@ -125,6 +125,15 @@ class C20(Oracle):
                             {'container': ci, 'before': V.describe_container(pristine),
                              'after': V.describe_container(c)}, culprit)
                 return
+        # -- caller-owned Config objects are inputs too: never modified by the library
+        for ci, c in enumerate(w.configs):
+            now = w.snap_cfg(c)
+            if ci < len(w.config_pristine) and not same(now, w.config_pristine[ci]):
+                d = [(a[0], a[1], b[1]) for a, b in zip(w.config_pristine[ci], now) if not same(a, b)]
+                w.violation('C20', 'caller-config-mutated', st,
+                            {'config': ci, 'field': d[0][0] if d else None,
+                             'before': short(d[0][1]) if d else None, 'after': short(d[0][2]) if d else None}, culprit)
+                return
         # -- process-global template
         want = None if w.template is None else w.slots[w.template].obj
         wantc = None if w.cfg_template is None else w.configs[w.cfg_template]
@@ -471,6 +480,13 @@ class C04(Oracle):
                 if ps.get(f) and not o.status.get(f, False):
                     w.violation('C04', 'flag-lowered', st, {'slot': i, 'flag': f,
                                                               'origin': w.slots[i].origin}, culprit)
+                    return
+                if i not in allowed and not ps.get(f) and o.status.get(f, False):
+                    # the iff read right to left: no write on this object in this step, so none of
+                    # its flags may come up
+                    w.violation('C04', 'flag-raised-without-write', st,
+                                {'slot': i, 'flag': f, 'origin': w.slots[i].origin,
+                                 'write_set': sorted(allowed)}, culprit)
                     return
         # ---- a callback is delivered only for writes on the object it was registered on
         fc = st.extra.get('foreign_cb')
